@@ -20,7 +20,6 @@ from .interp import Interp
 
 VERIF = os.path.dirname(os.path.dirname(os.path.abspath(__file__)))
 
-FIRST_RLIMIT = int(os.environ.get("PYVC_RLIMIT", "40000000"))
 QUICK_TIMEOUT_MS = int(os.environ.get("PYVC_TIMEOUT_MS", "20000"))
 THOROUGH_TIMEOUT_MS = 90000
 
@@ -33,10 +32,10 @@ def solve(pc, goal, timeout_ms):
         return "unsat", None, "trivial", 0.0
     first = min(timeout_ms, 3000)
     s = z3.Solver()
-    # first stage bounded by z3's deterministic resource counter rather than by wall-clock time, so the
-    # verdict of an obligation does not depend on how busy the machine is (the wall cap is a safety net)
-    s.set("rlimit", FIRST_RLIMIT)
-    s.set("timeout", 300000)
+    # a short first attempt; obligations z3 does not settle at once go to cvc5 and then back to z3 with the
+    # full budget and, if still open, with other random seeds (slow queries are the unstable ones: a retry
+    # with another seed settles most of them, and a busy machine only moves work to the later stages)
+    s.set("timeout", first)
     s.add(*pc)
     s.add(z3.Not(goal))
     r = s.check()
@@ -53,15 +52,21 @@ def solve(pc, goal, timeout_ms):
     if verdict == "unsat":
         return "unsat", None, "cvc5", time.time() - t0
     if timeout_ms > first:
-        s2 = z3.Solver()
-        s2.set("timeout", timeout_ms)
-        s2.add(*pc)
-        s2.add(z3.Not(goal))
-        r = s2.check()
-        if r == z3.unsat:
-            return "unsat", None, "z3", time.time() - t0
-        if r == z3.sat:
-            return "sat", s2.model(), "z3", time.time() - t0
+        for seed in (0, 7, 23):
+            s2 = z3.Solver()
+            s2.set("timeout", timeout_ms)
+            if seed:
+                s2.set("random_seed", seed)
+                s2.set("smt.random_seed", seed)
+            s2.add(*pc)
+            s2.add(z3.Not(goal))
+            r = s2.check()
+            if r == z3.unsat:
+                return "unsat", None, "z3", time.time() - t0
+            if r == z3.sat:
+                return "sat", s2.model(), "z3", time.time() - t0
+            if time.time() - t0 > 4 * timeout_ms / 1000:
+                break
     return "unknown", None, "z3+cvc5", time.time() - t0
 
 
